@@ -23,12 +23,17 @@ package quic
 //   The eventual-delivery assertions are vfAssertKF with kcond = finMismarked.
 //
 // Harnesses: VerifC19_transfer (windows larger than the data), VerifC19_window (stream window and write buffer bind),
-// VerifC19_connwin (connection window binds; loss may be declared at any time; lost datagrams may never arrive).
+// VerifC19_connwin (connection window binds; loss may be declared at any time; lost datagrams may never arrive),
+// VerifC19_ackorder (write buffer binds, two packets in flight, acks in any order, Writes of the whole buffer).
 // zz_verif_c19b_test.go: VerifC19_credit / VerifC19_creditconn (windows of 16..24 bytes, free read sizes incl. the
 // fast path, faulty RETURN path for MAX_STREAM_DATA / MAX_DATA; seeded C19-C, C19-D).
 //   seeded C19-B: outUnlockNoQueue `outunsent.min() < outmaxsent` -> `outunsent.max() < outmaxsent` (a stream with lost
 //     bytes AND never-sent bytes waits on queueData for connection credit that only the lost bytes can free)
 //     caught by VerifC19_connwin "eventual delivery"
+//
+//   seeded C19-E: ackOrLossData frees the send buffer only up to the end of THIS ack instead of outacked[0].end (acks out
+//     of order leave out.start stuck inside acknowledged data; the write buffer shrinks for good)
+//     caught by VerifC19_ackorder "Write takes bytes whenever fewer than MaxStreamWriteBufferSize bytes await acknowledgement"
 //
 // Sensitivity (sh mut.sh, caught by VerifC19_transfer):
 //   stream.go handleData: `b = b[newOff-off:]` -> `b = b[0:]`                 "Read returns the peer's bytes in order"
@@ -38,6 +43,7 @@ func init() {
 	vfRegister("VerifC19_transfer", VerifC19_transfer)
 	vfRegister("VerifC19_window", VerifC19_window)
 	vfRegister("VerifC19_connwin", VerifC19_connwin)
+	vfRegister("VerifC19_ackorder", VerifC19_ackorder)
 }
 
 type c19pkt struct {
@@ -70,16 +76,22 @@ type c19world struct {
 	// finMismarked: the stream recorded its FIN as sent in a packet that carries no FIN (known finding
 	// C19-fin-marked-sent-on-truncated-frame); from then on the FIN may never be retransmitted.
 	finMismarked bool
+	// write-side progress (seeded C19-E): the configured MaxStreamWriteBufferSize, the Write sizes on the menu
+	// (default {1}) and whether "datagram i arrives and is acknowledged at once" is one event of the menu
+	outmaxbuf int64
+	wsizes    []int
+	dack      bool
+	sawAckReorder, sawRefill bool
 }
 
 func c19new(outmaxbuf, win, connwin int64) *c19world {
-	x := &c19world{}
+	x := &c19world{outmaxbuf: outmaxbuf, wsizes: []int{1}}
 	x.w = qsNewSender(outmaxbuf, win, connwin, 1)
 	x.w.symData = true
 	x.sg = x.w.gs[0]
 	x.r = qsNewReceiver(win, connwin)
 	x.rg = qsNewReadGhost(x.r, nil)
-	x.acked = make([]bool, 16)
+	x.acked = make([]bool, 64)
 	x.maxAcked = -1
 	x.w.onFrame = func(f qsFrame) {
 		var p *c19pkt
@@ -102,6 +114,8 @@ func c19new(outmaxbuf, win, connwin int64) *c19world {
 		vfAssert(p != nil && p.delivered, "harness: only packets that arrived are acknowledged")
 		if pnum > x.maxAcked {
 			x.maxAcked = pnum
+		} else {
+			x.sawAckReorder = true
 		}
 		for _, f := range p.frames {
 			if f.typ != frameTypeStreamBase {
@@ -166,6 +180,31 @@ func (x *c19world) deliver(p *c19pkt) {
 func (x *c19world) read(n int) {
 	x.rg.content = x.sg.data
 	x.rg.read(n)
+}
+
+// write calls Write(n symbolic bytes) and states the progress half of the claim for the writer: the send buffer holds
+// the bytes from the first unacknowledged one to the last written one, so Write takes bytes as long as fewer than
+// MaxStreamWriteBufferSize bytes are waiting behind the acknowledged PREFIX of the stream, whatever the order in which
+// the acknowledgements arrived. (The context is cancelled: "would block" shows up as a short count.) A Write that
+// takes less is stuck for good once everything sent was acknowledged: the bytes are never delivered to the peer.
+func (x *c19world) write(n int) {
+	before := len(x.sg.data)
+	prefix := 0
+	for prefix < before && x.acked[prefix] {
+		prefix++
+	}
+	x.w.do(qsAlt{qsOpWrite, 0, n})
+	if x.sg.closed {
+		return
+	}
+	want := int(x.outmaxbuf) - (before - prefix)
+	if want > n {
+		want = n
+	}
+	if prefix > 0 && want > 0 && before-prefix+want == int(x.outmaxbuf) {
+		x.sawRefill = true
+	}
+	vfAssert(len(x.sg.data)-before == want, "C19: Write takes bytes whenever fewer than MaxStreamWriteBufferSize bytes await acknowledgement")
 }
 
 // control lets the receiver emit one packet and delivers its MAX_STREAM_DATA / MAX_DATA frames to the sender at
@@ -243,7 +282,17 @@ func (x *c19world) step(writes bool) {
 		menu = append(menu, alt{5, 0})
 	}
 	if writes && !x.sg.closed {
-		menu = append(menu, alt{6, 1}, alt{7, 0})
+		for _, n := range x.wsizes {
+			menu = append(menu, alt{6, n})
+		}
+		menu = append(menu, alt{7, 0})
+	}
+	if x.dack { // a datagram that has not arrived yet arrives and its acknowledgement reaches the sender: one event
+		for i, sp := range w.em.inflight {
+			if !x.pkt(sp.num).delivered {
+				menu = append(menu, alt{8, i})
+			}
+		}
 	}
 	m := menu[vfChoice("ev", len(menu))]
 	switch m.kind {
@@ -277,9 +326,12 @@ func (x *c19world) step(writes bool) {
 			vfAssume(false)
 		}
 	case 6:
-		w.do(qsAlt{qsOpWrite, 0, m.a})
+		x.write(m.a)
 	case 7:
 		w.do(qsAlt{qsOpClose, 0, 0})
+	case 8:
+		x.deliver(x.pkt(w.em.inflight[m.a].num))
+		w.do(qsAlt{qsOpFate, 0, 2 * m.a})
 	}
 }
 
@@ -328,7 +380,7 @@ func (x *c19world) finish(rounds int) {
 	}
 	vfAssertKF(x.allAcked() && x.allReceived(), "eventual delivery: everything written arrived and was acknowledged", c19KeyFin, x.finMismarked)
 	vfAssertKF(s.Close() == nil, "C19: with eventual delivery Close returns nil", c19KeyFin, x.finMismarked)
-	for i := 0; i < 6 && !x.rg.eof; i++ {
+	for i := 0; i < 6+len(x.sg.data)/2 && !x.rg.eof; i++ {
 		x.read(2)
 	}
 	vfAssertKF(x.rg.eof, "C19: the reader reaches io.EOF", c19KeyFin, x.finMismarked)
@@ -442,6 +494,49 @@ func VerifC19_connwin() {
 	}
 	if x.w.connMax > 1 {
 		vfReach("connection-window-extended-by-the-receiver")
+	}
+	vfReach("end")
+}
+
+// VerifC19_ackorder (seeded C19-E): acknowledgements in any order while the WRITE BUFFER is the binding limit and the
+// writer keeps writing. Write buffer 4, windows 16 (never bind). Script: Write(4 symbolic bytes) fills the buffer; Flush;
+// a first packet with room for 1, 2 or 3 bytes, a second one with the rest: two packets in flight. Then k free events
+// as in VerifC19_window (emit, PTO probe, deliver any datagram, ack any arrived packet in any order, loss, Read) plus
+// "datagram arrives and is acknowledged" as one event and Write(1) / Write(4 = the whole buffer) / CloseWrite. Every
+// Write is checked against the acknowledged prefix (c19world.write); then the usual eventual-delivery rounds.
+func VerifC19_ackorder() {
+	k := 4
+	if vfTier() > 0 {
+		k = 5
+	}
+	x := c19new(4, 16, 16)
+	x.rg.have = make([]bool, 64)
+	x.dack = true
+	x.wsizes = []int{1, 4}
+	w := x.w
+	w.avails = []int{4, 5, 6, 20}
+	x.write(4)
+	w.do(qsAlt{qsOpFlush, 0, 0})
+	x.emit(qsOpEmit, vfChoice("first", 3))
+	x.emit(qsOpEmit, 3)
+	vfAssert(len(w.em.inflight) == 2, "harness: two packets in flight")
+	w.avails = []int{20}
+	w.prune = true
+	for i := 0; i < k; i++ {
+		x.step(true)
+	}
+	x.finish(3 + len(x.sg.data)/4)
+	if x.sawAckReorder {
+		vfReach("acks-out-of-order")
+	}
+	if x.sawRefill {
+		vfReach("write-refills-the-buffer-after-acks")
+	}
+	if x.sawLoss {
+		vfReach("loss")
+	}
+	if len(x.sg.data) > 4 {
+		vfReach("more-than-one-buffer-written")
 	}
 	vfReach("end")
 }
